@@ -255,7 +255,7 @@ struct Kernel {
           }
         }
         for (size_t j = 0; j < plans.size(); ++j) {
-          kit_cpu_deadline(hs.child_seconds());
+          { const char* ov = getenv("VERIF_CHILD_SECONDS"); kit_cpu_deadline(ov ? atoi(ov) : hs.child_seconds()); }   // (override: debug aid)
           sh->scratch[15] = (long) j; sh->cur_op = -1; sh->in_branch = 0; sh->kind[0] = 0; sh->fault[0] = 0; sh->note[0] = 0;
           Ctx ctx; ctx.plan = &plans[j]; ctx.sh = sh; ctx.out_fd = res;
           hs.run(plans[j], ctx);
@@ -514,7 +514,13 @@ static int worker_main(Harness& hs, Kernel& k, const BatchOpts& o, long w) {
       close(cfd);
       // Gate: two fresh re-executions must reproduce class and event hash.
       RunResult g1 = k.execute(plan), g2 = k.execute(plan);
-      if (!Kernel::has_cls(g1, cls) || !Kernel::has_cls(g2, cls) || g1.h != g2.h || g1.h != rr.h) {
+      if (v.monitor == "hang" && (!Kernel::has_cls(g1, cls) || !Kernel::has_cls(g2, cls))) {
+        // a plan that exceeded its CPU budget once and completes when re-executed is a slow plan at the edge of
+        // the budget, not a hang: counted, not reported
+        stats["kit.slow_plan_near_budget"]++;
+        continue;
+      }
+      if (!Kernel::has_cls(g1, cls) || !Kernel::has_cls(g2, cls) || (v.monitor != "hang" && (g1.h != g2.h || g1.h != rr.h))) {
         fprintf(res, "VR\t%s\tflaky\t-\t%s\n", cls.c_str(), v.detail.c_str());
         std::string fp = o.out + "/flaky-" + hb + ".plan";
         FILE* f = fopen(fp.c_str(), "w"); if (f) { fputs(plan.text().c_str(), f); fclose(f); }
@@ -597,7 +603,19 @@ static int kit_main(int argc, char** argv, Harness& hs) {
     Plan plan; std::string err;
     if (!plan.load(argv[2], err)) { fprintf(stderr, "replay: %s\n", err.c_str()); return 2; }
     k.stderr_path = rawarg("--stderr", "");
-    RunResult rr = k.execute(plan);
+    // debug aid: `replay target.plan --after a.plan,b.plan` executes a.plan, b.plan and then the target in ONE child,
+    // as a batch does (to look for state that survives from one run to the next)
+    std::string after = rawarg("--after", "");
+    RunResult rr;
+    if (!after.empty()) {
+      std::vector<Plan> pre; size_t p0 = 0;
+      while (p0 <= after.size()) { size_t e = after.find(',', p0); std::string f = after.substr(p0, e == std::string::npos ? std::string::npos : e - p0); p0 = e == std::string::npos ? after.size() + 1 : e + 1;
+        if (f.empty()) continue; Plan q; if (!q.load(f.c_str(), err)) { fprintf(stderr, "replay: %s\n", err.c_str()); return 2; } pre.push_back(q); }
+      std::vector<const Plan*> ps; for (auto& q : pre) ps.push_back(&q); ps.push_back(&plan);
+      std::vector<RunResult> out = k.execute_batch(ps);
+      rr = out.back();
+    }
+    else rr = k.execute(plan);
     int bad = 0;
     for (auto& v : rr.viols) {
       printf("violation\t%s\top#%ld\t%s\n", v.cls().c_str(), v.op, v.detail.c_str());
